@@ -27,7 +27,7 @@ ASSUMPTIONS = ['completing a span early but inside the opening invocation is all
 SHAPES = ['calls', 'recursion', 'mutual', 'exc_caught_in_caller', 'exc_caught_inside', 'exc_propagates', 'try_finally', 'gen_full', 'gen_partial',
           'gen_closed', 'klass', 'closure', 'with_block', 'loop']
 KINDS = ['span_line', 'span_method', 'capture_method', 'capture_line', 'span_pair', 'span_line_pair', 'span_and_capture',
-         'span_method_and_line', 'span_two_lines', 'span_method_and_callee']
+         'span_method_and_line', 'span_two_lines', 'span_method_and_callee', 'span_line_and_capture']
 
 
 def bounds(tier):
@@ -60,6 +60,7 @@ def cases(tier, seed):
                 own = sorted({ln for _, _, ln in co.co_lines() if ln is not None})
                 for ln in own:
                     out.append({'k': 'seq', 'prog': name, 'kind': 'span_method_and_line', 'at': [co.co_name, ln], 'fc': fc})
+                    out.append({'k': 'seq', 'prog': name, 'kind': 'span_line_and_capture', 'at': co.co_name, 'at2': ln, 'fc': fc})
                 for l1, l2 in zip(own, own[1:]):
                     out.append({'k': 'seq', 'prog': name, 'kind': 'span_two_lines', 'at': [l1, l2], 'fc': fc})
             for f1 in fns:
@@ -107,7 +108,9 @@ class Trace:
         return self.cur.get(threading.current_thread().name)
 
 
-def triggers_for(prog, kind, at, fc):
+def triggers_for(prog, kind, at, fc, at2=None):
+    if kind == 'span_line_and_capture':
+        return [make_trigger(prog, 'capture_method', at, fc, 'tp-a'), make_trigger(prog, 'span_line', at2, fc, 'tp-b')]
     if kind == 'span_pair':
         return [make_trigger(prog, 'span_method', at, fc, 'tp-a'), make_trigger(prog, 'span_method', at, fc, 'tp-b'), make_trigger(prog, 'span_method', at, fc, 'tp-c')]
     if kind == 'span_line_pair':
@@ -185,10 +188,10 @@ def run_case(ctx, desc):
 
 def seq(ctx, desc):
     prog, kind, at, fc = desc['prog'], desc['kind'], desc['at'], desc['fc']
-    trig = triggers_for(prog, kind, at, fc)
+    trig = triggers_for(prog, kind, at, fc, desc.get('at2'))
     lo, agent, j, tr, run = run_program(prog, trig)
     ctx.case()
-    label = f'{prog} {kind}@{at} fire_count={fc}'
+    label = f'{prog} {kind}@{at}{"+" + str(desc["at2"]) if "at2" in desc else ""} fire_count={fc}'
     case = dict(desc)
     store = dict(rig.ThreadLocal._ThreadLocal__store)
     if run.escaped:
@@ -239,7 +242,7 @@ def check_run(ctx, desc, label, case, events, agent, tr, store, thread_name=None
             nontrivial = nontrivial or inv[oev.inv]['exit'][0] == 'exception' or any(
                 e2.func == oev.func and e2.inv != oev.inv and inv[e2.inv]['first'] < cev.idx <= inv[e2.inv]['last'] for e2 in events)
     if 'capture' in kind:
-        ckind = 'capture_method' if kind == 'span_and_capture' else kind
+        ckind = 'capture_method' if kind in ('span_and_capture', 'span_line_and_capture') else kind
         pushes = tr.pushes
         # every capture snapshot: delivered once, at an exit event of the opening invocation, with that exit's value
         seen = set()
